@@ -14,19 +14,29 @@ from .model import Program
 from .report import Ctx, VERIF
 
 
+MAX_VARIANTS = int(os.environ.get("VERIF_SELFTEST_MAX", "8"))
+
+
 def _patches(prop):
-    out = []
+    """seeded changes written for this property first, then the hand-made variants (breaking and equivalent), then
+    changes seeded for other properties that this check also reports; at most MAX_VARIANTS"""
+    own, other = [], []
     for d in sorted(glob.glob(os.path.join(VERIF, "seeded", "*"))):
         meta = os.path.join(d, "meta.json")
         if not os.path.exists(meta):
             continue
         m = json.load(open(meta))
         if prop in m.get("detected_by", []) and os.path.exists(os.path.join(d, "patch.diff")):
-            out.append((os.path.basename(d), os.path.join(d, "patch.diff"), "break"))
+            (own if m.get("property") == prop else other).append((os.path.basename(d), os.path.join(d, "patch.diff"), "break"))
+    hand = []
     for f in sorted(glob.glob(os.path.join(VERIF, "selftest", prop, "*.patch"))):
         kind = "equiv" if f.endswith(".equiv.patch") else "break"
-        out.append(("selftest/" + os.path.basename(f), f, kind))
-    return out
+        hand.append(("selftest/" + os.path.basename(f), f, kind))
+    # keep at least the equivalent variants in the mix
+    eq = [h for h in hand if h[2] == "equiv"]
+    br = [h for h in hand if h[2] == "break"]
+    out = own + eq + br + other
+    return out[:MAX_VARIANTS]
 
 
 def run_selftests(ctx, prop, limit=None):
